@@ -26,8 +26,9 @@ def prim_params(of):
 
 
 class Builder:
-    def __init__(self, style="proc", setattr_conns=False, dict_anon=False, flip=False):
+    def __init__(self, style="proc", setattr_conns=False, dict_anon=False, flip=False, copies=False):
         self.mcache, self.bcache, self.ecache = {}, {}, {}
+        self.copies = copies        # bundle instances of one type are made as copies of one another: `n * B()`, `flipped(flipped(b))`
         self.style = style
         self.setattr_conns = setattr_conns
         self.dict_anon = dict_anon  # anonymous bundles written in dict shorthand
@@ -85,7 +86,20 @@ class Builder:
             m.add(h.Port(name=n, width=w))
         for n, w in md.sigs:
             m.add(h.Signal(name=n, width=w))
-        for n, bd, is_port in md.buns:
+        if self.copies:
+            groups = {}
+            for n, bd, is_port in md.buns:
+                groups.setdefault(id(bd), []).append((n, bd, is_port))
+            made = {}
+            for grp in groups.values():
+                proto = h.BundleInstance(of=build_bundle(grp[0][1], self.bcache))
+                objs = (len(grp) * proto) if len(grp) > 1 else [h.flipped(h.flipped(proto))]
+                for (n, bd, is_port), bi in zip(grp, objs):
+                    bi.name, bi.port = n, is_port
+                    made[n] = bi
+            for n, bd, is_port in md.buns:
+                m.add(made[n])
+        for n, bd, is_port in ([] if self.copies else md.buns):
             m.add(h.BundleInstance(name=n, of=build_bundle(bd, self.bcache), port=is_port, flipped=self.flip))
         for inst in md.insts:  # create all instances first so port references can point forward
             t = self.target(inst.of)
@@ -161,5 +175,5 @@ class Builder:
         return m
 
 
-def build(top: Mod, style="proc", setattr_conns=False, dict_anon=False, flip=False):
-    return Builder(style, setattr_conns, dict_anon, flip).bmod(top)
+def build(top: Mod, style="proc", setattr_conns=False, dict_anon=False, flip=False, copies=False):
+    return Builder(style, setattr_conns, dict_anon, flip, copies).bmod(top)
